@@ -253,53 +253,56 @@ theorem trimSpace_edged {s : Str} (h : Edged s) (a b : Nat) :
 
 /-! ## `CleanSpace` on a sentence written with generous spacing -/
 
-theorem replace2_cons_ne {b : UInt8} (r : Str) (h : b ≠ 32) : replace2 (b :: r) = b :: replace2 r := by
-  rw [replace2]
-  intro r' hb; exact absurd hb h
+theorem collapse_cons_ne {b : UInt8} (r : Str) (h : b ≠ 32) :
+    collapseSpaces (b :: r) = b :: collapseSpaces r := by
+  simp [collapseSpaces, h]
 
-theorem replace2_space_ne {c : UInt8} (r : Str) (h : c ≠ 32) :
-    replace2 (32 :: c :: r) = 32 :: replace2 (c :: r) := by
-  rw [replace2]
-  intro r' _ hc; simp at hc; exact absurd hc.1 h
+theorem collapse_space_ne {c : UInt8} (r : Str) (h : c ≠ 32) :
+    collapseSpaces (32 :: c :: r) = 32 :: collapseSpaces (c :: r) := by
+  have : ¬ (c = 32) := h
+  rw [collapseSpaces]; simp [this]
 
-theorem replace2_space_nil : replace2 [32] = [32] := by
-  simp [replace2]
+theorem collapse_space_space (r : Str) :
+    collapseSpaces (32 :: 32 :: r) = collapseSpaces (32 :: r) := by
+  rw [collapseSpaces]; simp
 
-theorem replace2_space_space (r : Str) : replace2 (32 :: 32 :: r) = 32 :: replace2 r := by
-  rw [replace2]
-
-theorem replace2_spaces_cons {c : UInt8} (r : Str) (h : c ≠ 32) (g : Nat) :
-    replace2 (spaces g ++ c :: r) = spaces ((g + 1) / 2) ++ replace2 (c :: r) := by
-  induction g using Nat.strongRecOn with
-  | _ g ih =>
-    match g with
-    | 0 => simp [spaces]
-    | 1 => simp [spaces, replace2_space_ne r h]
-    | g + 2 =>
-      have e : spaces (g + 2) ++ c :: r = 32 :: 32 :: (spaces g ++ c :: r) := by
+theorem collapse_spaces_cons {c : UInt8} (r : Str) (h : c ≠ 32) (g : Nat) :
+    collapseSpaces (spaces g ++ c :: r) = spaces (min g 1) ++ collapseSpaces (c :: r) := by
+  induction g with
+  | zero => simp [spaces]
+  | succ g ih =>
+    cases g with
+    | zero => simp [spaces, collapse_space_ne r h]
+    | succ g =>
+      have e : spaces (g + 1 + 1) ++ c :: r = 32 :: 32 :: (spaces g ++ c :: r) := by
         simp [spaces, List.replicate_succ]
-      rw [e, replace2_space_space, ih g (by omega)]
-      have : (g + 2 + 1) / 2 = (g + 1) / 2 + 1 := by omega
-      rw [this]; simp [spaces, List.replicate_succ]
+      have e' : spaces (g + 1) ++ c :: r = 32 :: (spaces g ++ c :: r) := by
+        simp [spaces, List.replicate_succ]
+      rw [e, collapse_space_space, ← e', ih]
+      have h1 : min (g + 1) 1 = 1 := by omega
+      have h2 : min (g + 1 + 1) 1 = 1 := by omega
+      rw [h1, h2]
 
-theorem replace2_spaces (g : Nat) : replace2 (spaces g) = spaces ((g + 1) / 2) := by
-  induction g using Nat.strongRecOn with
-  | _ g ih =>
-    match g with
-    | 0 => simp [spaces, replace2]
-    | 1 => simp [spaces, replace2_space_nil]
-    | g + 2 =>
-      have e : spaces (g + 2) = 32 :: 32 :: spaces g := by simp [spaces, List.replicate_succ]
-      rw [e, replace2_space_space, ih g (by omega)]
-      have : (g + 2 + 1) / 2 = (g + 1) / 2 + 1 := by omega
-      rw [this]; simp [spaces, List.replicate_succ]
+theorem collapse_spaces (g : Nat) : collapseSpaces (spaces g) = spaces (min g 1) := by
+  induction g with
+  | zero => simp [spaces, collapseSpaces]
+  | succ g ih =>
+    cases g with
+    | zero => simp [spaces, collapseSpaces]
+    | succ g =>
+      have e : spaces (g + 1 + 1) = 32 :: 32 :: spaces g := by simp [spaces, List.replicate_succ]
+      have e' : spaces (g + 1) = 32 :: spaces g := by simp [spaces, List.replicate_succ]
+      rw [e, collapse_space_space, ← e', ih]
+      have h1 : min (g + 1) 1 = 1 := by omega
+      have h2 : min (g + 1 + 1) 1 = 1 := by omega
+      rw [h1, h2]
 
-theorem replace2_solid_append {t : Str} (r : Str) (h : ∀ b ∈ t, solidB b = true) :
-    replace2 (t ++ r) = t ++ replace2 r := by
+theorem collapse_solid_append {t : Str} (r : Str) (h : ∀ b ∈ t, solidB b = true) :
+    collapseSpaces (t ++ r) = t ++ collapseSpaces r := by
   induction t with
   | nil => rfl
   | cons a t ih =>
-    rw [List.cons_append, replace2_cons_ne _ (ne32_of_solid (h a (by simp))),
+    rw [List.cons_append, collapse_cons_ne _ (ne32_of_solid (h a (by simp))),
       ih (fun b hb => h b (by simp [hb]))]
     rfl
 
@@ -317,11 +320,11 @@ def joinSp : List Str → Str
   | [t] => t
   | t :: t' :: ts => t ++ 32 :: joinSp (t' :: ts)
 
-theorem replace2_render (toks : List (Nat × Str)) (gEnd : Nat) (h : ∀ p ∈ toks, Solid p.2) :
-    replace2 (render toks gEnd) =
-      render (toks.map fun p => ((p.1 + 1) / 2, p.2)) ((gEnd + 1) / 2) := by
+theorem collapse_render (toks : List (Nat × Str)) (gEnd : Nat) (h : ∀ p ∈ toks, Solid p.2) :
+    collapseSpaces (render toks gEnd) =
+      render (toks.map fun p => (min p.1 1, p.2)) (min gEnd 1) := by
   induction toks with
-  | nil => simp [render, replace2_spaces]
+  | nil => simp [render, collapse_spaces]
   | cons p rest ih =>
     obtain ⟨hne, hs⟩ := h p (by simp)
     cases e : p.2 with
@@ -330,15 +333,15 @@ theorem replace2_render (toks : List (Nat × Str)) (gEnd : Nat) (h : ∀ p ∈ t
       have hc : solidB c = true := hs c (by simp [e])
       have ht : ∀ b ∈ c :: t, solidB b = true := by rw [← e]; exact hs
       simp only [render, List.map_cons, e]
-      rw [List.append_assoc, List.cons_append, replace2_spaces_cons _ (ne32_of_solid hc),
-        ← List.cons_append, replace2_solid_append _ ht, ih (fun q hq => h q (by simp [hq]))]
+      rw [List.append_assoc, List.cons_append, collapse_spaces_cons _ (ne32_of_solid hc),
+        ← List.cons_append, collapse_solid_append _ ht, ih (fun q hq => h q (by simp [hq]))]
       simp
 
 /-- the spacing `CleanSpace` copes with: any number of spaces before the first token (and after the
-    last), one to four between tokens -/
+    last), at least one between tokens -/
 def GapsOK : List (Nat × Str) → Prop
   | [] => False
-  | _ :: rest => ∀ q ∈ rest, 1 ≤ q.1 ∧ q.1 ≤ 4
+  | _ :: rest => ∀ q ∈ rest, 1 ≤ q.1
 
 theorem render_unit (g0 : Nat) (t : Str) (rest : List (Nat × Str)) (e : Nat)
     (h : ∀ q ∈ rest, q.1 = 1) :
@@ -372,34 +375,30 @@ theorem edged_joinSp (t : Str) (ts : List Str) (h : ∀ x ∈ t :: ts, Solid x) 
     refine ⟨⟨b, r0 ++ 32 :: joinSp (t' :: ts), by simp [joinSp, e0], hb⟩,
             ⟨t ++ 32 :: r, c, by simp [joinSp, e], hc⟩⟩
 
-/-- `CleanSpace` turns generous spacing into single spaces -/
+/-- `CleanSpace` turns any spacing into single spaces -/
 theorem cleanSpace_render (toks : List (Nat × Str)) (gEnd : Nat) (hg : GapsOK toks)
     (hs : ∀ p ∈ toks, Solid p.2) :
     cleanSpace (render toks gEnd) = joinSp (toks.map (·.2)) := by
   cases toks with
   | nil => exact absurd hg (by simp [GapsOK])
   | cons p rest =>
-    have hrest : ∀ q ∈ rest, 1 ≤ q.1 ∧ q.1 ≤ 4 := hg
+    have hrest : ∀ q ∈ rest, 1 ≤ q.1 := hg
     unfold cleanSpace
-    rw [replace2_render _ _ hs, replace2_render]
-    · simp only [List.map_cons, List.map_map]
-      rw [render_unit]
-      · have := trimSpace_edged (edged_joinSp p.2 (rest.map (·.2)) (by
-          intro x hx
-          simp only [List.mem_cons, List.mem_map] at hx
-          rcases hx with rfl | ⟨q, hq, rfl⟩
-          · exact hs p (by simp)
-          · exact hs q (by simp [hq]))) (((p.1 + 1) / 2 + 1) / 2) (((gEnd + 1) / 2 + 1) / 2)
-        simpa [Function.comp_def] using this
-      · intro q hq
-        simp only [List.mem_map, Function.comp_def] at hq
-        obtain ⟨x, hx, rfl⟩ := hq
-        have := hrest x hx
-        simp only; omega
+    rw [collapse_render _ _ hs]
+    simp only [List.map_cons]
+    rw [render_unit]
+    · have := trimSpace_edged (edged_joinSp p.2 (rest.map (·.2)) (by
+        intro x hx
+        simp only [List.mem_cons, List.mem_map] at hx
+        rcases hx with rfl | ⟨q, hq, rfl⟩
+        · exact hs p (by simp)
+        · exact hs q (by simp [hq]))) (min p.1 1) (min gEnd 1)
+      simpa [Function.comp_def] using this
     · intro q hq
       simp only [List.mem_map] at hq
       obtain ⟨x, hx, rfl⟩ := hq
-      exact hs x hx
+      have := hrest x hx
+      simp only; omega
 
 /-! ## the single-date pattern on tokens -/
 
